@@ -57,6 +57,14 @@ MULTILINE_SOURCES = [
     "match s (t):\n    case [a, b (c=1),\n          *r] if g (h): pass\n    case {'k': v (),\n          **z}: pass\n",
     "r = f(a (1), k=b (2),\n      *c (3), j=d (4),\n      **e (5))\nclass K(A (1), m=M (2),\n        *B (3)): pass\n",
     "d = {a (1): b (2),\n     **c (3), e: f (4)}\nx = a (1) < b (2) < \\\n    c (3)\ny = lambda p, q=g (1), *, \\\n    s=h (2): p (q)\n",
+    # first decorators whose grouping parenthesis / `@` is on an earlier line than the decorator expression
+    "@(\n  deco)\nclass C: pass\n@ (\n  a . b (c))\ndef f(): pass\n@ \\\n  (\n  d (e))\nasync def g(): pass\n",
+    # f-strings: plain, self-documenting (`=`), conversions, format specs with nested fields, nested and multi-line
+    # triple-quoted f-strings, non-ASCII text before / inside / after (AST columns are UTF-8 bytes)
+    "\u00e9 = 1; x = f'pr\u00e9{a  + b = }' ; y = f'{ (a)= !r}\u00fc'\n",
+    "z = f'{a  + \"\u00fc\" = :>5}{ b !r} \u03bb {c:{ w }}'\n",
+    "w = f\'\'\'\u03b1{a +\n  \u03bb  = }\u03b2 {\n  b (c) }\'\'\'\n",
+    "v = f'\u00e9{ f\"{ a  = }\u00fc\" + g (x) }'\nu = f'{ a }{ b  !s:>{ w }}' f' \u00e9{ c = }'\n",
     # derived extents: own grouping parentheses (after '(' / before ')' / between '))') and trailing comments of blocks
     "x = ( a  ) + ( ( b ) )\ny = f( ( c ) , ( d  ),\n       k=( e  ) )\nz = ( ( p ) , ( q  ) )\n",
     "if ( a  ):  # c1\n    pass  # c2\nelif ( ( b ) ) : pass  # c3\nwhile ( c ): # c4\n    x = ( 1  ) # c5\n",
@@ -171,17 +179,12 @@ class Src:
         comments / newlines inside a logical line, C = whole lines between logical lines, file start and end."""
         out = []
         tk = self.tk
-        fdepth = 0
         n = len(tk)
         nl = len(self.lines)
         for i in range(n - 1):
             a, b = tk[i], tk[i + 1]
-            if a.type == FSTART:
-                fdepth += 1
-            elif a.type == FEND:
-                fdepth -= 1
-            if fdepth > 0:
-                continue
+            # f-strings are not skipped: their literal text is FSTRING_MIDDLE tokens (a change there changes the token
+            # sequence and is outside the domain), the expression parts of the fields are ordinary tokens with ordinary gaps
             if a.type in (T.INDENT, T.DEDENT, T.ENDMARKER):
                 continue
             if a.type in (T.NEWLINE, T.NL):
@@ -212,6 +215,51 @@ class Src:
         if first is not None and first.type != T.ENDMARKER:
             out.append(((0, 0), (first.start[0] - 1, 0), 'C'))
         return out
+
+    def fields(self):
+        """[(start, end, is_debug)] of every f-string replacement field `{...}` (positions of the braces, 0-based line /
+        char col), from the token stream: a field is self-documenting when an `=` directly precedes `}`, `!` or `:` at
+        field level."""
+        if hasattr(self, '_fields'):
+            return self._fields
+        out, stack = [], []
+        tk = self.tk
+        for i, t in enumerate(tk):
+            if t.type == FSTART:
+                stack.append(['f'])
+            elif t.type == FEND:
+                while stack and stack[-1][0] != 'f':
+                    stack.pop()
+                if stack:
+                    stack.pop()
+            elif t.type == T.OP and stack:
+                top = stack[-1]
+                if t.string == '{' and (top[0] == 'f' or (top[0] == 'field' and top[3])):
+                    stack.append(['field', self.tstart(t), False, False])  # kind, start, debug, in format spec
+                elif t.string in '([{' and top[0] in ('field', 'b'):
+                    stack.append(['b'])
+                elif t.string in ')]' and top[0] == 'b':
+                    stack.pop()
+                elif t.string == '}':
+                    if top[0] == 'b':
+                        stack.pop()
+                    elif top[0] == 'field':
+                        out.append((top[1], self.tend(t), top[2]))
+                        stack.pop()
+                elif top[0] == 'field' and not top[3]:
+                    nxt = next((u for u in tk[i + 1:] if u.type not in (T.NL, T.COMMENT)), None)
+                    if t.string == '=' and nxt is not None and nxt.type == T.OP and nxt.string in ('}', '!', ':'):
+                        top[2] = True
+                    elif t.string == ':':
+                        top[3] = True
+        self._fields = out
+        return out
+
+    def in_debug_field(self, p, q) -> bool:
+        return any(d and a <= p and q <= b for a, b, d in self.fields())
+
+    def in_field(self, p, q) -> bool:
+        return any(a <= p and q <= b for a, b, d in self.fields())
 
     def self_path(self, p, q):
         """Path [(field, index|None)] of the innermost positioned node that contains both neighbouring real tokens of the
@@ -249,6 +297,9 @@ class Src:
                                                                    ast.boolop, ast.cmpop)):
                         continue
                     cp = path + [(f, i)]
+                    if isinstance(node, ast.JoinedStr) and isinstance(c, ast.Constant):
+                        continue  # literal text of an f-string; the text CPython gives a `{x = }` field overlaps the field,
+                        #           the field (its FormattedValue and what is below) owns the trivia
                     if hasattr(c, 'end_col_offset') and getattr(c, 'end_col_offset', None) is not None:
                         if holds(c):
                             if len(cp) > len(best):
@@ -416,10 +467,9 @@ def prepare(S: Src, p, q, r):
         v = getattr(a, f)
         a = v if i is None else v[i]
         chain.append(a)
-    if in_fstring(chain):
-        return None
     rl = r.split('\n')
     return {'new': N, 'path': path, 'kind': type(node).__name__ if node is not None else 'Module',
+            'dbg': S.in_debug_field(p, q), 'fld': S.in_field(p, q), 'cont': '\\\n' in r or '\\\n' in splice_text(S, p, q),
             'pB': [p[0] + 1, bcol(S.lines, p[0], p[1])], 'qB': [q[0] + 1, bcol(S.lines, q[0], q[1])],
             'nl': len(rl) - 1, 'last': len(rl[-1].encode())}
 
@@ -472,9 +522,10 @@ def do_splice(rec: Rec, root, S: Src, p, q, r, typ, fact, warm='none', model=Non
                'afterat' if S.lines[p[0]][:p[1]].rstrip().endswith('@') else 'other')
         dcls = f"stale={','.join(kinds) or '?'}|acc={','.join(acc)}|{rel}"
     ev = {'call': 'splice', 'outcome': outcome, 'exc': ascii(exc), 'p': fact['pB'], 'q': fact['qB'], 'nl': fact['nl'],
-          'last': fact['last'], 'cls': classify(p, q, r, typ, fact['kind']) + ':' + warm, 'warm': warm, 'dcls': dcls,
+          'last': fact['last'], 'cls': classify(p, q, r, typ + ('d' if fact.get('dbg') else 'f' if fact.get('fld') else '') + ('c' if fact.get('dbg') and fact.get('cont') else ''), fact['kind']) + ':' + warm, 'warm': warm, 'dcls': dcls,
           'selfPath': [{'n': f, 'i': 1 if i is None else i + 1} for f, i in fact['path']],
           'expText': rec.tab.text(fact['new'].src), 'hasModel': model is not None, 'hasDerived': has_d,
+          'dbg': bool(fact.get('dbg')),
           'm': model if model is not None else {'n': 0}, 'post': post}
     return ev, post_src
 
